@@ -270,6 +270,9 @@ func cmdCheck(args []string) int {
 	outDir := filepath.Join(verifDir, "out", *prop)
 	os.RemoveAll(outDir)
 	os.MkdirAll(outDir, 0o755)
+	if *only == "" {
+		os.RemoveAll(filepath.Join(verifDir, "replay", *prop)) // replay material is per run
+	}
 	dischargeAll(obls, solveOpts{timeoutS: to, seed: seed, outDir: outDir, all: tier == "thorough"}, 6)
 	// verdicts
 	known := loadKnownFindings()
